@@ -90,7 +90,7 @@ def c08(ctx):
                 break
         if bad > 5:
             break
-    ctx.count('text:codepoints', 0x110000, 0x110000, samples=[{'codepoint': 0x2000, 'encoded': PE(' ').encoded_path}],
+    ctx.count('text:codepoints', 0x110000, 0x110000, samples=[{'codepoint': 0x2000, 'encoded': PE(chr(0x2000)).encoded_path}],
               exhaustive=True, dist={'escaped_code_points': len(model_map)})
 
     # 2. random entry lists: dump/load round trip on the implementation, and model agreement
